@@ -214,4 +214,8 @@ def run(repo, tier):
         (ASD + '_aperture_masks_center', 'nret', '1', 'one exit'),
     ])
     run_cast_to_data_dtype(repo, res, {'photutils.aperture.stats', 'photutils.aperture.core', 'photutils.aperture.photometry', 'photutils.aperture.mask'})
+    apply_specs(repo, res, [
+        (ASD + 'cutout_centroid', 'stmt', 'ycentroid = moments[:, 1, 0] / moments[:, 0, 0]', 'y centroid = m10 / m00 (any sign of m00)'),
+        (ASD + 'cutout_centroid', 'stmt', 'xcentroid = moments[:, 0, 1] / moments[:, 0, 0]', 'x centroid = m01 / m00 (any sign of m00)'),
+    ])
     return res
